@@ -131,6 +131,13 @@ def write_files(spec, directory, sheet_order=None):
                 continue
             ws = wb[s]
             ws[r.split(':')[0]] = ArrayFormula(r, relink(W.formula(n, (b, s)), links))
+            if not spec.get('no_stale_spill'):
+                # a file saved by Excel holds the values it cached in every cell of the block: here deliberately stale ones
+                c1, r1, c2, r2 = W.parse_rect(r)
+                for rr in range(r1, r2 + 1):
+                    for cc in range(c1, c2 + 1):
+                        if (cc, rr) != (c1, r1):
+                            ws[W.coord(cc, rr)] = 987654.5
         for k, n in spec.get('names', {}).items():
             bb, nm = k.split('|')
             if bb != b:
